@@ -186,51 +186,51 @@ pub fn hide_identity() {
 }
 
 // GENERATED BY gen.py — BEGIN
-//@ props=C11,C12 tier=quick unwind=42 stubs=md5 uwset=message/avp.rs@(1..n_chunks).rev()=2;message/avp.rs@in_1..n_chunks_{=2 witness=revealed cap=1800
+//@ props=C11,C12 tier=quick unwind=42 stubs=md5 uwset=message/avp.rs@(1..n_chunks).rev()=2;message/avp.rs@in~1..n_chunks~{=2 witness=revealed cap=1800
 hide!(hide_6_2_s3_lp0, 6, 2, 3, 0);
-//@ props=C11,C12 tier=quick unwind=42 stubs=md5 uwset=message/avp.rs@(1..n_chunks).rev()=2;message/avp.rs@in_1..n_chunks_{=2 witness=revealed cap=1800
+//@ props=C11,C12 tier=quick unwind=42 stubs=md5 uwset=message/avp.rs@(1..n_chunks).rev()=2;message/avp.rs@in~1..n_chunks~{=2 witness=revealed cap=1800
 hide!(hide_7_5_s0_lp2, 7, 5, 0, 2);
-//@ props=C11,C12 tier=quick unwind=42 stubs=md5 uwset=message/avp.rs@(1..n_chunks).rev()=2;message/avp.rs@in_1..n_chunks_{=2 witness=revealed cap=1800
+//@ props=C11,C12 tier=quick unwind=42 stubs=md5 uwset=message/avp.rs@(1..n_chunks).rev()=2;message/avp.rs@in~1..n_chunks~{=2 witness=revealed cap=1800
 hide!(hide_7_14_s3_lp0, 7, 14, 3, 0);
-//@ props=C11,C12 tier=quick unwind=42 stubs=md5 uwset=message/avp.rs@(1..n_chunks).rev()=3;message/avp.rs@in_1..n_chunks_{=3 witness=revealed cap=1800
+//@ props=C11,C12 tier=quick unwind=42 stubs=md5 uwset=message/avp.rs@(1..n_chunks).rev()=3;message/avp.rs@in~1..n_chunks~{=3 witness=revealed cap=1800
 hide!(hide_7_9_s3_lp8, 7, 9, 3, 8);
-//@ props=C11,C12 tier=quick unwind=42 stubs=md5,utf8 uwset=message/avp.rs@(1..n_chunks).rev()=2;message/avp.rs@in_1..n_chunks_{=2 witness=revealed cap=1800
+//@ props=C11,C12 tier=quick unwind=42 stubs=md5,utf8 uwset=message/avp.rs@(1..n_chunks).rev()=2;message/avp.rs@in~1..n_chunks~{=2 witness=revealed cap=1800
 hide!(hide_8_4_s16_lp3, 8, 4, 16, 3);
-//@ props=C11,C12 tier=quick unwind=42 stubs=md5 uwset=message/avp.rs@(1..n_chunks).rev()=2;message/avp.rs@in_1..n_chunks_{=2 witness=revealed cap=1800
+//@ props=C11,C12 tier=quick unwind=42 stubs=md5 uwset=message/avp.rs@(1..n_chunks).rev()=2;message/avp.rs@in~1..n_chunks~{=2 witness=revealed cap=1800
 hide!(hide_0_2_s1_lp0, 0, 2, 1, 0);
-//@ props=C11,C12 tier=thorough unwind=42 stubs=md5 uwset=message/avp.rs@(1..n_chunks).rev()=3;message/avp.rs@in_1..n_chunks_{=3 witness=revealed cap=1800
+//@ props=C11,C12 tier=thorough unwind=42 stubs=md5 uwset=message/avp.rs@(1..n_chunks).rev()=3;message/avp.rs@in~1..n_chunks~{=3 witness=revealed cap=1800
 hide!(hide_34_26_s3_lp2, 34, 26, 3, 2);
-//@ props=C11,C12 tier=thorough unwind=42 stubs=md5 uwset=message/avp.rs@(1..n_chunks).rev()=3;message/avp.rs@in_1..n_chunks_{=3 witness=revealed cap=1800
+//@ props=C11,C12 tier=thorough unwind=42 stubs=md5 uwset=message/avp.rs@(1..n_chunks).rev()=3;message/avp.rs@in~1..n_chunks~{=3 witness=revealed cap=1800
 hide!(hide_13_16_s3_lp0, 13, 16, 3, 0);
-//@ props=C11,C12 tier=quick unwind=52 stubs=md5 uwset=message/avp.rs@(1..n_chunks).rev()=4;message/avp.rs@in_1..n_chunks_{=4 witness=revealed cap=1800
+//@ props=C11,C12 tier=quick unwind=52 stubs=md5 uwset=message/avp.rs@(1..n_chunks).rev()=4;message/avp.rs@in~1..n_chunks~{=4 witness=revealed cap=1800
 hide!(hide_7_20_s3_lp12, 7, 20, 3, 12);
-//@ props=C11,C12 tier=thorough unwind=42 stubs=md5,utf8 uwset=message/avp.rs@(1..n_chunks).rev()=2;message/avp.rs@in_1..n_chunks_{=2 witness=revealed cap=1800
+//@ props=C11,C12 tier=thorough unwind=42 stubs=md5,utf8 uwset=message/avp.rs@(1..n_chunks).rev()=2;message/avp.rs@in~1..n_chunks~{=2 witness=revealed cap=1800
 hide!(hide_12_5_s3_lp1, 12, 5, 3, 1);
-//@ props=C11,C12 tier=thorough unwind=42 stubs=md5 uwset=message/avp.rs@(1..n_chunks).rev()=2;message/avp.rs@in_1..n_chunks_{=2 witness=revealed cap=1800
+//@ props=C11,C12 tier=thorough unwind=42 stubs=md5 uwset=message/avp.rs@(1..n_chunks).rev()=2;message/avp.rs@in~1..n_chunks~{=2 witness=revealed cap=1800
 hide!(hide_39_0_s3_lp0, 39, 0, 3, 0);
-//@ props=C11,C12 tier=thorough unwind=42 stubs=md5 uwset=message/avp.rs@(1..n_chunks).rev()=2;message/avp.rs@in_1..n_chunks_{=2 witness=revealed cap=1800
+//@ props=C11,C12 tier=thorough unwind=42 stubs=md5 uwset=message/avp.rs@(1..n_chunks).rev()=2;message/avp.rs@in~1..n_chunks~{=2 witness=revealed cap=1800
 hide!(hide_5_8_s3_lp6, 5, 8, 3, 6);
-//@ props=C11,C12 tier=thorough unwind=52 stubs=md5 uwset=message/avp.rs@(1..n_chunks).rev()=4;message/avp.rs@in_1..n_chunks_{=4 witness=revealed cap=1800
+//@ props=C11,C12 tier=thorough unwind=52 stubs=md5 uwset=message/avp.rs@(1..n_chunks).rev()=4;message/avp.rs@in~1..n_chunks~{=4 witness=revealed cap=1800
 hide!(hide_7_30_s1_lp16, 7, 30, 1, 16);
-//@ props=C13,C12,C01 tier=quick unwind=42 stubs=md5,decode uwset=message/avp.rs@(1..n_chunks).rev()=1;message/avp.rs@in_1..n_chunks_{=1 witness=rejected cap=1800
+//@ props=C13,C12,C01 tier=quick unwind=42 stubs=md5,decode uwset=message/avp.rs@(1..n_chunks).rev()=1;message/avp.rs@in~1..n_chunks~{=1 witness=rejected cap=1800
 reveal!(reveal_0_s0, 0, 0);
-//@ props=C13,C12,C01 tier=quick unwind=42 stubs=md5,decode uwset=message/avp.rs@(1..n_chunks).rev()=1;message/avp.rs@in_1..n_chunks_{=1 witness=rejected cap=1800
+//@ props=C13,C12,C01 tier=quick unwind=42 stubs=md5,decode uwset=message/avp.rs@(1..n_chunks).rev()=1;message/avp.rs@in~1..n_chunks~{=1 witness=rejected cap=1800
 reveal!(reveal_1_s3, 1, 3);
-//@ props=C13,C12,C01 tier=quick unwind=42 stubs=md5,decode uwset=message/avp.rs@(1..n_chunks).rev()=1;message/avp.rs@in_1..n_chunks_{=1 witness=rejected cap=1800
+//@ props=C13,C12,C01 tier=quick unwind=42 stubs=md5,decode uwset=message/avp.rs@(1..n_chunks).rev()=1;message/avp.rs@in~1..n_chunks~{=1 witness=rejected cap=1800
 reveal!(reveal_15_s0, 15, 0);
-//@ props=C13,C12,C01 tier=quick unwind=42 stubs=md5,decode uwset=message/avp.rs@(1..n_chunks).rev()=2;message/avp.rs@in_1..n_chunks_{=2 witness=rejected,accepted cap=1800
+//@ props=C13,C12,C01 tier=quick unwind=42 stubs=md5,decode uwset=message/avp.rs@(1..n_chunks).rev()=2;message/avp.rs@in~1..n_chunks~{=2 witness=rejected,accepted cap=1800
 reveal!(reveal_16_s3, 16, 3);
-//@ props=C13,C12,C01 tier=quick unwind=42 stubs=md5,decode uwset=message/avp.rs@(1..n_chunks).rev()=2;message/avp.rs@in_1..n_chunks_{=2 witness=rejected cap=1800
+//@ props=C13,C12,C01 tier=quick unwind=42 stubs=md5,decode uwset=message/avp.rs@(1..n_chunks).rev()=2;message/avp.rs@in~1..n_chunks~{=2 witness=rejected cap=1800
 reveal!(reveal_17_s0, 17, 0);
-//@ props=C13,C12,C01 tier=quick unwind=42 stubs=md5,decode uwset=message/avp.rs@(1..n_chunks).rev()=3;message/avp.rs@in_1..n_chunks_{=3 witness=rejected,accepted cap=1800
+//@ props=C13,C12,C01 tier=quick unwind=42 stubs=md5,decode uwset=message/avp.rs@(1..n_chunks).rev()=3;message/avp.rs@in~1..n_chunks~{=3 witness=rejected,accepted cap=1800
 reveal!(reveal_32_s3, 32, 3);
-//@ props=C13,C12,C01 tier=thorough unwind=42 stubs=md5,decode uwset=message/avp.rs@(1..n_chunks).rev()=2;message/avp.rs@in_1..n_chunks_{=2 witness=rejected cap=1800
+//@ props=C13,C12,C01 tier=thorough unwind=42 stubs=md5,decode uwset=message/avp.rs@(1..n_chunks).rev()=2;message/avp.rs@in~1..n_chunks~{=2 witness=rejected cap=1800
 reveal!(reveal_31_s3, 31, 3);
-//@ props=C13,C12,C01 tier=thorough unwind=42 stubs=md5,decode uwset=message/avp.rs@(1..n_chunks).rev()=3;message/avp.rs@in_1..n_chunks_{=3 witness=rejected cap=1800
+//@ props=C13,C12,C01 tier=thorough unwind=42 stubs=md5,decode uwset=message/avp.rs@(1..n_chunks).rev()=3;message/avp.rs@in~1..n_chunks~{=3 witness=rejected cap=1800
 reveal!(reveal_33_s3, 33, 3);
-//@ props=C13,C12,C01 tier=quick unwind=51 stubs=md5,decode uwset=message/avp.rs@(1..n_chunks).rev()=4;message/avp.rs@in_1..n_chunks_{=4 witness=rejected,accepted cap=1800
+//@ props=C13,C12,C01 tier=quick unwind=51 stubs=md5,decode uwset=message/avp.rs@(1..n_chunks).rev()=4;message/avp.rs@in~1..n_chunks~{=4 witness=rejected,accepted cap=1800
 reveal!(reveal_48_s3, 48, 3);
-//@ props=C13,C12,C01 tier=thorough unwind=42 stubs=md5,decode uwset=message/avp.rs@(1..n_chunks).rev()=2;message/avp.rs@in_1..n_chunks_{=2 witness=rejected,accepted cap=1800
+//@ props=C13,C12,C01 tier=thorough unwind=42 stubs=md5,decode uwset=message/avp.rs@(1..n_chunks).rev()=2;message/avp.rs@in~1..n_chunks~{=2 witness=rejected,accepted cap=1800
 reveal!(reveal_16_s0, 16, 0);
 
 pub const HARNESSES: &[(&str, fn())] = &[
